@@ -126,7 +126,7 @@ def _plugin_out(case, pt):
     bad = lambda what, detail: out.append({'key': 'C06:' + what, 'what': '%s: %s' % (what, detail), 'case': case})
     words = list(pelgen.SRC_DEFAULT_WORDS)
     words[7] = 0xDDEEFF00 | (case['src'] if case['src'] is not None else 0)
-    secs = [{'t': 'PS', 'ascii': 'BC8A1234'.ljust(32), 'words': words}]
+    secs = [{'t': 'PS', 'ascii': 'BC8A1234'.ljust(32), 'words': words, 'wc': case.get('wc', 9)}]
     if case['ud'] is not None:
         secs.append({'t': 'UD', 'comp': 0x0100, 'sub': 1, 'payload': bytes([case['ud'], 0x41, 0x42]).hex()})
         secs.append({'t': 'ED', 'creator': 'B', 'comp': 0x0100, 'sub': 1, 'payload': bytes([case['ud'], 0x43]).hex()})
@@ -514,6 +514,10 @@ def run_chunk(chunk):
                     if a is None and b is None:
                         continue
                     _do(res, {'k': 'plugin_out', 'src': a, 'ud': b}, '"plugin', every=7)
+            # SRCs that declare fewer than nine valid words (the parser still gets eight hex words)
+            for wc in (1, 2, 5, 8):
+                for a in (None, 0, 8):
+                    _do(res, {'k': 'plugin_out', 'src': a, 'ud': 0, 'wc': wc}, '"plugin', every=7)
         finally:
             imphook.uninstall()
             imphook.forget_modules()
